@@ -35,8 +35,9 @@ PROP = dict(
         "stack use is not modelled as a quantity: the theorems bound the NESTING of any structural recursion over a "
         "parse result by the 1024-level depth limit (unfold_defined with fuel 1026, independent of the input size); "
         "that the Go recursions fit the goroutine stack at that depth is measured (go.parse.deep up to 10^6 cells)",
-        "Cell.ToString costs Theta(depth^2) characters by its format and Theta(depth^3) time by repeated string "
-        "concatenation: it is exercised only for results of depth <= 1024 and <= 20 000 cells",
+        "toString_bounded bounds the LINES printed by the model of toStringImpl (<= 4*65536+1, for every table incl. "
+        "exponential DAGs); bytes and allocation of the real ToString are checked per input (output <= lines bound x "
+        "(depth+263), TotalAlloc <= 32 x output + 1 MiB) and lines:bytes are compared Go vs model (boc.tostring)",
         "measured allocation bound used by the oracle: TotalAlloc(DeserializeBoc) <= 256*|input| + 1 MiB (a 2-byte cell "
         "costs a 112-byte struct and a 128-byte buffer, so 16 bytes per input byte is not achievable); the model "
         "theorem is parse_alloc <= 189*|input| + 8 in requested bytes",
@@ -48,7 +49,7 @@ PROP = dict(
                "parse_sound -- every returned cell has <= 1023 bits, <= 4 refs, every ref points to a LATER cell of the "
                "table (acyclic, present), pruned branches are complete, roots are cells, depth <= 1024; unfold_defined -- "
                "hence every root denotes a finite tree and recursion over it nests <= 1025 levels whatever the input; "
-               "hash_no_panic -- the hashing model never panics on a parse result. Tie: model == Go exactly on ~100k (thorough ~2M) adversarial inputs per run; "
+               "hash_no_panic -- the hashing model never panics on a parse result; toString_bounded -- printing any root emits <= 4*65536+1 lines whatever the unfolding of the DAG. Tie: model == Go exactly on ~100k (thorough ~2M) adversarial inputs per run; "
                "direct oracle on Go: no panic / fatal crash / cycle / disproportionate allocation, and Hash, ToBoc, "
                "ToString, re-parse of every result succeed.",
     level_note="trusted: Lean kernel, hand model (exactly compared with Go each run), harness, check.py",
